@@ -146,6 +146,21 @@ func runC15(c *Ctx) {
 			continue
 		}
 		w.add("(CRFormat (Some \"user\") "+coqStr(tok)+" "+coqStr(string(useed))+" (Some "+coqStr(string(creds))+"))", inp)
+		// the seed handed in as a PART of a larger buffer (several seeds kept back to back, a seed followed by a CR or a
+		// blank): formatting reads the seed and leaves the buffer, and what lies behind the seed, alone
+		for _, tail := range []string{string(useed), "\r\n", " ", "\tX", "S"} {
+			buf := append(append(make([]byte, 0, len(useed)+len(tail)+8), useed...), tail...)
+			before := string(buf[:cap(buf)])
+			c2, err2 := jwt.FormatUserConfig(tok, buf[:len(useed)])
+			d2, err3 := jwt.DecorateSeed(buf[:len(useed)])
+			c.sum.ImplChecks++
+			if string(buf[:cap(buf)]) != before {
+				c.violation("C15: formatting wrote into the caller's buffer behind the seed it was handed", map[string]interface{}{"behind_the_seed": tail, "buffer_after": string(buf[len(useed):cap(buf)])})
+			}
+			if err2 != nil || string(c2) != string(creds) || err3 != nil || !bytes.Contains(creds, d2) {
+				c.violation("C15: a seed handed in as part of a larger buffer is formatted differently", map[string]interface{}{"behind_the_seed": tail, "error": fmt.Sprint(err2, err3)})
+			}
+		}
 		renderings := map[string]string{
 			"LF":                 string(creds),
 			"CRLF":               strings.ReplaceAll(string(creds), "\n", "\r\n"),
